@@ -14,11 +14,69 @@ def H(name, test, driver, n):
     return Harness(name=name, module="pdata", pkg="pdata/plog", files=FILES, test=test, driver=driver, n=n)
 
 
+def _gen_names(path, defname):
+    """names listed in a `def <defname> : List … := [ ("a", "b", …), … ]` of a regenerated Gen file"""
+    import os, re
+    from ..runner import LEAN
+    try:
+        with open(os.path.join(LEAN, path)) as f:
+            body = f.read()
+    except FileNotFoundError:      # the translator failed (reported there) and removed its stale output
+        return []
+    m = re.search(r"def %s\b.*?:=\s*\[(.*?)\]\n" % defname, body, re.S)
+    return re.findall(r"\(([^()]*)\)", m.group(1)) if m else []
+
+
+def _types_run(ctx, harness):
+    import os, re
+    p = os.path.join(ctx.scratch, harness, "lines.txt")
+    if not os.path.exists(p):
+        return set()
+    with open(p) as f:
+        return set(re.findall(r"^case \S+ .*?type=(\S+)", f.read(), re.M))
+
+
+def post(ctx):
+    """coverage tie: every generated slice / primitive slice / message struct listed by the translators was RUN by the
+    reflection harnesses of this very run (fail closed)"""
+    from ..runner import TieBroken
+    if ctx.replay is not None:
+        return
+    want = set()
+    for ent in _gen_names("OtelVerif/Gen/PdataSlices.lean", "elemSlices"):
+        parts = [x.strip().strip('"') for x in ent.split(",")]
+        want.add(parts[0] + "." + parts[1])
+    got = _types_run(ctx, "allslices") | _types_run(ctx, "allslices-pprofile")
+    if not want or want - got:
+        raise TieBroken("allslices-coverage", "generated slices not exercised by the allslices harnesses: %s" % sorted(want - got))
+    wantp = {ent.split(",")[0].strip().strip('"') for ent in _gen_names("OtelVerif/Gen/PdataSlices.lean", "primSlices")}
+    gotp = _types_run(ctx, "allprims")
+    if not wantp or wantp - gotp:
+        raise TieBroken("allprims-coverage", "primitive slices not exercised: %s" % sorted(wantp - gotp))
+    wantm = set()
+    import re as _re, os as _os
+    from ..runner import LEAN as _LEAN
+    try:
+        with open(_os.path.join(_LEAN, "OtelVerif/Gen/PdataMsg.lean")) as f:
+            for pk, nm in _re.findall(r'pkg := "([a-z]+)", name := "([A-Za-z]+)"', f.read()):
+                wantm.add(pk + "." + nm)
+    except FileNotFoundError:
+        pass
+    gotm = _types_run(ctx, "allmsgs") | _types_run(ctx, "allmsgs-pprofile")
+    if not wantm or wantm - gotm:
+        raise TieBroken("allmsgs-coverage", "generated message structs not exercised by the allmsgs harnesses: %s" % sorted(wantm - gotm))
+    ctx.cov["stats"].setdefault("coverage", {}).update({"message_structs_run": len(gotm & wantm), "message_structs_listed": len(wantm)})
+    ctx.cov["stats"].setdefault("coverage", {}).update({"generated_slices_run": len(got & want), "generated_slices_listed": len(want),
+                                                        "primitive_slices_run": len(gotp & wantp), "primitive_slices_listed": len(wantp)})
+
+
 SPEC = Spec(
     pid="C07",
+    post=post,
     lean_modules=["OtelVerif.Props.C07"],
     translators=[go_translator("pdatacensus", "OtelVerif/Gen/PdataCensus.lean"),
-                 go_translator("pdatamsg", "OtelVerif/Gen/PdataMsg.lean")],
+                 go_translator("pdatamsg", "OtelVerif/Gen/PdataMsg.lean"),
+                 go_translator("pdataslices", "OtelVerif/Gen/PdataSlices.lean")],
     harnesses=[
         H("witness", "TestVerifC07Witness", None, {"quick": 9, "thorough": 9}),
         H("ptrslice", "TestVerifC07PtrSlice", "drv_c07", {"quick": 12000, "thorough": 100000}),
@@ -28,6 +86,19 @@ SPEC = Spec(
                 test="TestVerifC07PtrSliceMetric", driver="drv_c07", n={"quick": 3000, "thorough": 40000}),
         Harness(name="ptrslice-pprofile", module="pdata/pprofile", pkg="pdata/pprofile", files={"zz_verif_c07_ptrslice_test.go": "c07/ptrslice_pprofile_test.go"},
                 test="TestVerifC07PtrSliceProfile", driver="drv_c07", n={"quick": 3000, "thorough": 40000}),
+        Harness(name="allslices", module="pdata", pkg="pdata/plog", files={"zz_verif_c07_allslices_test.go": "c07/allslices_test.go"},
+                test="TestVerifC07AllSlices", driver="drv_c07", n={"quick": 17 * 120, "thorough": 17 * 1500}),
+        Harness(name="allslices-pprofile", module="pdata/pprofile", pkg="pdata/pprofile",
+                files={"zz_verif_c07_allslices_test.go": "c07/allslices_pprofile_test.go"},
+                test="TestVerifC07AllSlicesProfile", driver="drv_c07", n={"quick": 12 * 120, "thorough": 12 * 1500}),
+        Harness(name="allprims", module="pdata", pkg="pdata/pcommon", files={"zz_verif_c07_allprims_test.go": "c07/allprims_test.go"},
+                test="TestVerifC07AllPrims", driver="drv_c07", n={"quick": 7 * 200, "thorough": 7 * 4000}),
+        Harness(name="allmsgs", module="pdata", pkg="pdata/plog",
+                files={"zz_verif_c07_allslices_test.go": "c07/allslices_test.go", "zz_verif_c07_allmsgs_test.go": "c07/allmsgs_test.go"},
+                test="TestVerifC07AllMsgs", driver=None, n={"quick": 30 * 40, "thorough": 30 * 700}),
+        Harness(name="allmsgs-pprofile", module="pdata/pprofile", pkg="pdata/pprofile",
+                files={"zz_verif_c07_allslices_test.go": "c07/allslices_pprofile_test.go", "zz_verif_c07_allmsgs_test.go": "c07/allmsgs_pprofile_test.go"},
+                test="TestVerifC07AllMsgsProfile", driver=None, n={"quick": 13 * 40, "thorough": 13 * 700}),
         Harness(name="map", module="pdata", pkg="pdata/pcommon", files={"zz_verif_c07_map_test.go": "c07/map_test.go"},
                 test="TestVerifC07Map", driver="drv_c07", n={"quick": 12000, "thorough": 150000}),
         Harness(name="nest", module="pdata", pkg="pdata/pcommon", files={"zz_verif_c07_nest_test.go": "c07/nest_test.go"},
